@@ -10,7 +10,7 @@ BUILD = C.BUILD
 TRUST_PAT = re.compile(
     r"assume\s*\(|admit\s*\(|#\[verifier::external_body\]|assume_specification|#\[verifier::external\]|"
     r"#\[verifier::external_type_specification\]|#\[verifier::external_trait_specification\]|#\[verifier::external_fn_specification\]|"
-    r"#\[verifier::accept_recursive_types|#\[verifier::reject_recursive_types|uninterp\s+spec\s+fn|broadcast\s+axiom|axiom\s+fn")
+    r"#\[verifier::exec_allows_no_decreases_clause\]|#\[verifier::accept_recursive_types|#\[verifier::reject_recursive_types|uninterp\s+spec\s+fn|broadcast\s+axiom|axiom\s+fn")
 
 
 def sh(cmd, **kw):
